@@ -98,8 +98,18 @@ def run_delete(sx, nx, ny, nz):
     i, j, k = sx.choice("i", nx), sx.choice("j", ny), sx.choice("k", nz)
     mesh = cb.Mesh()
     mesh.add(stack)
-    mesh.delete(stack.grid[k][j][i])
-    mesh.assemble()
+    # the deletion comes before the first assembly or (solver's choice) after it, followed by a re-assembly and a
+    # back-port (what an optimiser run ends with)
+    late = sx.flag("deleted_after_first_assembly")
+    if late:
+        mesh.assemble()
+        mesh.delete(stack.grid[k][j][i])
+        mesh.clear()
+        mesh.assemble()
+        mesh.backport()
+    else:
+        mesh.delete(stack.grid[k][j][i])
+        mesh.assemble()
     sx.reach("stack")
     sx.prove(len(mesh.blocks) == nx * ny * nz - 1, "deleting one addressed operation removes exactly one block",
              "C19:delete:count", info={"blocks": len(mesh.blocks)})
@@ -119,7 +129,9 @@ def run_delete(sx, nx, ny, nz):
                 if (ii, jj, kk) != (i, j, k):
                     c = _expected_center(sx, geo, nx, ny, nz, ii, jj, kk)
                     conds.append(sx.any([_close3(sx, x, c) for x in centres]))
-    sx.prove(sx.all(conds), "every other location still has its block", "C19:delete:others")
+                    conds.append(_close3(sx, stack.grid[kk][jj][ii].center, c))
+    sx.prove(sx.all(conds), "every other location still has its block, and grid[k][j][i] is still the operation at that location",
+             "C19:delete:others")
     return "delete"
 
 
